@@ -109,7 +109,7 @@ def body(run: Run, replay):
             sel = [(0, 0)] + [(k, (k + ti) % (K + 1)) for k in range(1, K + 1)] + [((2 * ti) % (K + 1), 3 - (ti % 3))]
             allpairs = sorted(set(sel))
         gids, cins, couts, pts = [], [], [], []
-        for n_, (ci_, co_) in enumerate(allpairs * (1 if quick else 2)):
+        for n_, (ci_, co_) in enumerate(allpairs * (1 if quick else 5)):
             cins.append(ci_)
             couts.append(co_)
             pts.append(randpoint(typ[ci_], 8.0))
